@@ -1,0 +1,576 @@
+/*  Verification hooks (cargo feature "verif" only).
+
+    Stand-ins for std::thread::{spawn, JoinHandle} and std::sync::mpsc::{channel, Sender, Receiver}
+    used by build.rs when the feature is on.  Without an installed controller they behave like the
+    std versions (threads run freely, recv blocks on a condvar).  With a controller installed by
+    `run_controlled`, exactly one thread runs at a time and every send, recv, join, thread end and
+    every call of `yield_op` is a scheduling point at which the controller picks the next thread. */
+#![allow(dead_code)]
+
+use std::any::Any;
+use std::cell::Cell;
+use std::collections::VecDeque;
+use std::panic::{catch_unwind, resume_unwind, AssertUnwindSafe};
+use std::sync::{Arc, Condvar, Mutex, MutexGuard};
+
+/*  Implemented by message types so that the scheduler can log what travels on a channel. */
+pub trait Describe
+{
+    fn verif_describe(&self) -> String;
+}
+
+#[derive(Clone, Debug, PartialEq)]
+pub struct Op
+{
+    pub kind : String,
+    pub a : String,
+    pub b : String,
+}
+
+impl Op
+{
+    pub fn new(kind : &str, a : &str, b : &str) -> Op
+    {
+        Op{kind : kind.to_string(), a : a.to_string(), b : b.to_string()}
+    }
+}
+
+pub trait Controller : Send
+{
+    /*  enabled is non-empty and sorted by thread id; return one of the ids */
+    fn pick(&mut self, enabled : &[(usize, Op)]) -> usize;
+    fn granted(&mut self, _tid : usize, _op : &Op) {}
+    fn deadlock(&mut self, _blocked : &[(usize, Op)]) {}
+    fn spawned(&mut self, _parent : usize, _child : usize) {}
+    fn finished(&mut self, _tid : usize, _panicked : bool) {}
+}
+
+pub struct ShimAbort;
+
+#[derive(Clone, Debug, PartialEq)]
+enum St
+{
+    Running,
+    Starting,
+    Parked,
+    BlockedRecv(usize),
+    BlockedJoin(usize),
+    Draining,
+    Finished,
+}
+
+struct Th
+{
+    state : St,
+    op : Op,
+    parent : usize,
+    first : bool,
+}
+
+struct ChanMeta
+{
+    len : usize,
+    senders : usize,
+    rx_alive : bool,
+}
+
+struct Sched
+{
+    ctl : Box<dyn Controller>,
+    threads : Vec<Th>,
+    chans : Vec<ChanMeta>,
+    active : usize,
+    aborted : bool,
+}
+
+static SCHED : Mutex<Option<Sched>> = Mutex::new(None);
+static CV : Condvar = Condvar::new();
+
+thread_local!
+{
+    static TID : Cell<Option<usize>> = Cell::new(None);
+}
+
+fn lock() -> MutexGuard<'static, Option<Sched>>
+{
+    match SCHED.lock()
+    {
+        Ok(guard) => guard,
+        Err(poisoned) => poisoned.into_inner(),
+    }
+}
+
+fn my_tid() -> Option<usize>
+{
+    TID.with(|t| t.get())
+}
+
+impl Sched
+{
+    fn enabled(&self) -> Vec<(usize, Op)>
+    {
+        let mut result = vec![];
+        for (i, th) in self.threads.iter().enumerate()
+        {
+            let ok = match th.state
+            {
+                St::Parked => true,
+                St::BlockedRecv(c) => self.chans[c].len > 0 || self.chans[c].senders == 0,
+                St::BlockedJoin(t) => self.threads[t].state == St::Finished,
+                St::Draining => self.threads.iter().enumerate().all(|(j, o)| j == i || o.state == St::Finished),
+                _ => false,
+            };
+            if ok
+            {
+                result.push((i, th.op.clone()));
+            }
+        }
+        result
+    }
+
+    /*  Called by the thread that gives up the token. */
+    fn dispatch(&mut self)
+    {
+        let enabled = self.enabled();
+        if enabled.len() == 0
+        {
+            let blocked : Vec<(usize, Op)> = self.threads.iter().enumerate()
+                .filter(|(_, th)| th.state != St::Finished)
+                .map(|(i, th)| (i, th.op.clone())).collect();
+            if blocked.len() > 0
+            {
+                self.ctl.deadlock(&blocked);
+                self.aborted = true;
+            }
+            self.active = usize::MAX;
+        }
+        else
+        {
+            let pick = self.ctl.pick(&enabled);
+            let op = enabled.iter().find(|(t, _)| *t == pick).map(|(_, op)| op.clone());
+            match op
+            {
+                Some(op) =>
+                {
+                    self.ctl.granted(pick, &op);
+                    self.active = pick;
+                },
+                None =>
+                {
+                    self.ctl.granted(enabled[0].0, &enabled[0].1);
+                    self.active = enabled[0].0;
+                }
+            }
+        }
+        CV.notify_all();
+    }
+}
+
+/*  Give up the token with the pending operation `op`; returns when this thread is granted. */
+fn park(op : Op, state : St)
+{
+    let me = match my_tid()
+    {
+        Some(me) => me,
+        None => return,
+    };
+
+    let mut guard = lock();
+    {
+        let sched = match guard.as_mut()
+        {
+            Some(sched) => sched,
+            None => return,
+        };
+
+        sched.threads[me].state = state;
+        sched.threads[me].op = op;
+        if sched.threads[me].first
+        {
+            /*  first scheduling point of a freshly spawned thread: hand the token back to the parent */
+            sched.threads[me].first = false;
+            sched.active = sched.threads[me].parent;
+            CV.notify_all();
+        }
+        else
+        {
+            sched.dispatch();
+        }
+    }
+
+    loop
+    {
+        let (granted, aborted) = match guard.as_ref()
+        {
+            Some(sched) => (sched.active == me, sched.aborted),
+            None => (true, false),
+        };
+        if aborted
+        {
+            drop(guard);
+            resume_unwind(Box::new(ShimAbort));
+        }
+        if granted
+        {
+            break;
+        }
+        guard = match CV.wait(guard)
+        {
+            Ok(guard) => guard,
+            Err(poisoned) => poisoned.into_inner(),
+        };
+    }
+
+    match guard.as_mut()
+    {
+        Some(sched) => sched.threads[me].state = St::Running,
+        None => {},
+    }
+}
+
+/*  Scheduling point for the instrumented System: call before performing a shared operation. */
+pub fn yield_op(op : Op)
+{
+    park(op, St::Parked);
+}
+
+pub fn current_thread() -> Option<usize>
+{
+    my_tid()
+}
+
+pub fn controlled() -> bool
+{
+    my_tid().is_some() && lock().is_some()
+}
+
+/*  Runs f with the controller installed; the calling thread becomes thread 0.  After f returns (or
+    panics) all threads it left behind are run to completion.  Returns f's result (or its panic
+    payload) and whether the run was aborted because of a deadlock. */
+pub fn run_controlled<R>(
+    ctl : Box<dyn Controller>,
+    f : impl FnOnce() -> R) -> (Result<R, Box<dyn Any + Send>>, bool, Box<dyn Controller>)
+{
+    {
+        let mut guard = lock();
+        *guard = Some(Sched
+        {
+            ctl : ctl,
+            threads : vec![Th{state : St::Running, op : Op::new("main", "", ""), parent : 0, first : false}],
+            chans : vec![],
+            active : 0,
+            aborted : false,
+        });
+    }
+    TID.with(|t| t.set(Some(0)));
+
+    let result = catch_unwind(AssertUnwindSafe(f));
+
+    /*  drain */
+    let drain = catch_unwind(AssertUnwindSafe(|| park(Op::new("drain", "", ""), St::Draining)));
+    let _ = drain;
+
+    TID.with(|t| t.set(None));
+    let sched = lock().take().unwrap();
+    (result, sched.aborted, sched.ctl)
+}
+
+pub mod thread
+{
+    use super::*;
+
+    pub struct JoinHandle<T>
+    {
+        tid : Option<usize>,
+        slot : Arc<Mutex<Option<std::thread::Result<T>>>>,
+        real : std::thread::JoinHandle<()>,
+    }
+
+    impl<T> JoinHandle<T>
+    {
+        pub fn join(self) -> std::thread::Result<T>
+        {
+            match self.tid
+            {
+                Some(tid) if my_tid().is_some() =>
+                {
+                    park(Op::new("join", &format!("{}", tid), ""), St::BlockedJoin(tid));
+                },
+                _ => {},
+            }
+            let _ = self.real.join();
+            match self.slot.lock()
+            {
+                Ok(mut slot) => slot.take().unwrap(),
+                Err(poisoned) => poisoned.into_inner().take().unwrap(),
+            }
+        }
+    }
+
+    pub fn spawn<F, T>(f : F) -> JoinHandle<T>
+    where
+        F : FnOnce() -> T + Send + 'static,
+        T : Send + 'static,
+    {
+        let slot : Arc<Mutex<Option<std::thread::Result<T>>>> = Arc::new(Mutex::new(None));
+        let slot_clone = slot.clone();
+
+        let parent = my_tid();
+        let child = match parent
+        {
+            Some(parent) =>
+            {
+                let mut guard = lock();
+                match guard.as_mut()
+                {
+                    Some(sched) =>
+                    {
+                        let child = sched.threads.len();
+                        sched.threads.push(Th{state : St::Starting, op : Op::new("start", "", ""), parent : parent, first : true});
+                        sched.ctl.spawned(parent, child);
+                        Some(child)
+                    },
+                    None => None,
+                }
+            },
+            None => None,
+        };
+
+        let real = std::thread::spawn(move ||
+        {
+            match child
+            {
+                Some(me) =>
+                {
+                    TID.with(|t| t.set(Some(me)));
+                    /*  wait for the first grant (given by the parent right after spawning) */
+                    {
+                        let mut guard = lock();
+                        loop
+                        {
+                            let (granted, aborted) = match guard.as_ref()
+                            {
+                                Some(sched) => (sched.active == me, sched.aborted),
+                                None => (true, false),
+                            };
+                            if granted || aborted { break; }
+                            guard = match CV.wait(guard) { Ok(g) => g, Err(p) => p.into_inner() };
+                        }
+                    }
+                    let result = catch_unwind(AssertUnwindSafe(f));
+                    let panicked = result.is_err();
+                    *slot_clone.lock().unwrap() = Some(result);
+                    let mut guard = lock();
+                    match guard.as_mut()
+                    {
+                        Some(sched) =>
+                        {
+                            sched.threads[me].state = St::Finished;
+                            sched.ctl.finished(me, panicked);
+                            if sched.threads[me].first
+                            {
+                                sched.threads[me].first = false;
+                                sched.active = sched.threads[me].parent;
+                                CV.notify_all();
+                            }
+                            else
+                            {
+                                sched.dispatch();
+                            }
+                        },
+                        None => {},
+                    }
+                },
+                None =>
+                {
+                    let result = catch_unwind(AssertUnwindSafe(f));
+                    *slot_clone.lock().unwrap() = Some(result);
+                }
+            }
+        });
+
+        /*  let the child run up to its first scheduling point, then continue */
+        match (parent, child)
+        {
+            (Some(parent), Some(child)) =>
+            {
+                let mut guard = lock();
+                match guard.as_mut()
+                {
+                    Some(sched) =>
+                    {
+                        sched.active = child;
+                        CV.notify_all();
+                    },
+                    None => {},
+                }
+                loop
+                {
+                    let back = match guard.as_ref()
+                    {
+                        Some(sched) => sched.active == parent || sched.aborted,
+                        None => true,
+                    };
+                    if back { break; }
+                    guard = match CV.wait(guard) { Ok(g) => g, Err(p) => p.into_inner() };
+                }
+            },
+            _ => {},
+        }
+
+        JoinHandle{tid : child, slot : slot, real : real}
+    }
+}
+
+pub mod mpsc
+{
+    use super::*;
+    pub use std::sync::mpsc::{SendError, RecvError};
+
+    struct Inner<T>
+    {
+        queue : Mutex<(VecDeque<T>, usize, bool)>,   // (queue, senders, receiver alive)
+        cv : Condvar,
+        id : Option<usize>,
+    }
+
+    pub struct Sender<T>
+    {
+        inner : Arc<Inner<T>>,
+    }
+
+    pub struct Receiver<T>
+    {
+        inner : Arc<Inner<T>>,
+    }
+
+    pub fn channel<T>() -> (Sender<T>, Receiver<T>)
+    {
+        let id = if my_tid().is_some()
+        {
+            let mut guard = lock();
+            match guard.as_mut()
+            {
+                Some(sched) =>
+                {
+                    sched.chans.push(ChanMeta{len : 0, senders : 1, rx_alive : true});
+                    Some(sched.chans.len() - 1)
+                },
+                None => None,
+            }
+        }
+        else
+        {
+            None
+        };
+
+        let inner = Arc::new(Inner
+        {
+            queue : Mutex::new((VecDeque::new(), 1, true)),
+            cv : Condvar::new(),
+            id : id,
+        });
+        (Sender{inner : inner.clone()}, Receiver{inner : inner})
+    }
+
+    fn with_meta(id : Option<usize>, f : impl FnOnce(&mut ChanMeta))
+    {
+        match id
+        {
+            Some(id) =>
+            {
+                let mut guard = lock();
+                match guard.as_mut()
+                {
+                    Some(sched) => f(&mut sched.chans[id]),
+                    None => {},
+                }
+            },
+            None => {},
+        }
+    }
+
+    impl<T : Describe> Sender<T>
+    {
+        pub fn send(&self, value : T) -> Result<(), SendError<T>>
+        {
+            match self.inner.id
+            {
+                Some(id) => park(Op::new("send", &format!("{}", id), &value.verif_describe()), St::Parked),
+                None => {},
+            }
+
+            let mut queue = self.inner.queue.lock().unwrap();
+            if !queue.2
+            {
+                return Err(SendError(value));
+            }
+            queue.0.push_back(value);
+            drop(queue);
+            with_meta(self.inner.id, |meta| meta.len += 1);
+            self.inner.cv.notify_all();
+            Ok(())
+        }
+    }
+
+    impl<T> Drop for Sender<T>
+    {
+        fn drop(&mut self)
+        {
+            match self.inner.queue.lock()
+            {
+                Ok(mut queue) => queue.1 -= 1,
+                Err(_) => {},
+            }
+            with_meta(self.inner.id, |meta| meta.senders -= 1);
+            self.inner.cv.notify_all();
+        }
+    }
+
+    impl<T> Receiver<T>
+    {
+        pub fn recv(&self) -> Result<T, RecvError>
+        {
+            match self.inner.id
+            {
+                Some(id) => park(Op::new("recv", &format!("{}", id), ""), St::BlockedRecv(id)),
+                None => {},
+            }
+
+            let mut queue = self.inner.queue.lock().unwrap();
+            loop
+            {
+                match queue.0.pop_front()
+                {
+                    Some(value) =>
+                    {
+                        drop(queue);
+                        with_meta(self.inner.id, |meta| meta.len -= 1);
+                        return Ok(value);
+                    },
+                    None =>
+                    {
+                        if queue.1 == 0
+                        {
+                            return Err(RecvError);
+                        }
+                        queue = self.inner.cv.wait(queue).unwrap();
+                    }
+                }
+            }
+        }
+    }
+
+    impl<T> Drop for Receiver<T>
+    {
+        fn drop(&mut self)
+        {
+            match self.inner.queue.lock()
+            {
+                Ok(mut queue) => queue.2 = false,
+                Err(_) => {},
+            }
+            with_meta(self.inner.id, |meta| meta.rx_alive = false);
+        }
+    }
+}
